@@ -11,7 +11,7 @@ from ..model import AnalysisError, unparse, walk_no_nested
 from ..unitai import Num, Lit
 from ..units import ONE, base, PMS_MOL
 from .common import root_of_expr, path_from_param, const_value, floor, call_name, is_call_to, gate_with
-from .c03 import contents_stores, is_attr, zero
+from .c03 import contents_stores, is_attr, zero, strip_clamp
 from .c02 import total_descriptor, ALL, _is_contents_iter
 from . import targets
 from .. import uscan
@@ -112,7 +112,7 @@ def run(ctx):
     for c, s, b in [(c, s, b) for c, s, b in fft.calls if is_call_to(c, '_add')]:
         q = strip_refs(c.args[1])
         fv = [x for x in q.values if isinstance(x, ast.FormattedValue)] if isinstance(q, ast.JoinedStr) else []
-        val = fv[0].value if fv else None
+        val = strip_clamp(fv[0].value) if fv else None       # `max(required, 0)` after the rounded gate
 
         def nonneg(cc, val=val):
             vv = strip_refs(val)
